@@ -4,7 +4,7 @@
 
 use super::{Node, NodeInner};
 use crate::error::Result;
-use crate::event::NodeEventsChannel;
+use crate::event::{NodeEventsChannel, NodeEventsReceiver};
 use ant_evm::{EvmNetwork, RewardsAddress};
 use ant_networking::Network;
 use ant_protocol::{
@@ -16,6 +16,9 @@ use libp2p::{
     Multiaddr, PeerId,
 };
 use std::sync::Arc;
+
+/// The crate-private node error type (so the harness can classify results by variant).
+pub use crate::error::Error as VerifNodeError;
 
 /// Handle around the crate-private `Node`.
 #[derive(Clone)]
@@ -36,6 +39,11 @@ impl VerifNode {
         Self(Node {
             inner: Arc::new(inner),
         })
+    }
+
+    /// Subscribe to the node's public event channel (`NodeEvent::RewardReceived`, `ChunkStored`, ...).
+    pub fn subscribe_events(&self) -> NodeEventsReceiver {
+        self.0.events_channel().subscribe()
     }
 
     /// `Node::validate_and_store_record` (client PUT path).
